@@ -111,6 +111,7 @@ func (s *store) Index(_ context.Context, keys []string, opts ...IndexOptions) er
 
 	var unique bool
 	var filter func(types.Map) bool
+	var implied func(types.Map) bool
 	for _, opt := range opts {
 		if opt.Unique {
 			unique = true
@@ -127,10 +128,23 @@ func (s *store) Index(_ context.Context, keys []string, opts ...IndexOptions) er
 				}
 				return ok
 			}
+
+			names, ok := fields(val)
+			implied = func(doc types.Map) bool {
+				if !ok {
+					return false
+				}
+				for _, key := range names {
+					if !doc.Has(key) {
+						return false
+					}
+				}
+				return filter(doc)
+			}
 		}
 	}
 
-	idx := &index{Keys: make([]types.String, 0, len(keys)), Unique: unique, Filter: filter}
+	idx := &index{Keys: make([]types.String, 0, len(keys)), Unique: unique, Filter: filter, Implied: implied}
 	for _, k := range keys {
 		idx.Keys = append(idx.Keys, types.NewString(k))
 	}
@@ -389,11 +403,11 @@ func (s *store) explain(filter types.Value) (*executionPlan, error) {
 		return nil, nil
 	}
 
-	doc, _ := types.Cast[types.Map](extract(filter))
+	doc := pinned(filter)
 
 	var plans []*executionPlan
 	for _, idx := range s.segment.Indexes() {
-		if idx.Filter != nil && (doc == nil || !idx.Filter(doc)) {
+		if idx.Filter != nil && (idx.Implied == nil || !idx.Implied(doc)) {
 			continue
 		}
 		if plan := newExecutionPlan(idx.Keys, filter); plan != nil {
